@@ -720,5 +720,7 @@ def run(ctx):
     rule_linear_chain(F, R)
     rule_sample_axis(F, R)
     from . import c17
-    # chunk tiling of pool_t::map itself (shared with C17)
-    R.note("chunk tiling of pool_t::map is decided by R-C17-6 (check C17)")
+    # chunk tiling of pool_t::map itself (the rule of C17, run here too: every objective's value rests on it)
+    maps = [f for f in F.functions.values() if f.qn == "nano::parallel::pool_t::map"]
+    R.floor("R-C09-10", len(maps), 2, "pool_t::map instantiations")
+    c17.rule_tiling(F, R, maps, "R-C09-10")
